@@ -161,3 +161,27 @@ def StageFn.eval : StageFn → Arr → Arr
   | .clip lo hi, a => { a with px := a.px.map fun p => p.map (clipR lo hi) }
 
 end Darsia.Pipeline
+
+namespace Darsia.Pipeline
+
+/-! ### integer images: promotion before the difference
+
+`ConcentrationAnalysis` converts unsigned-integer baselines and probes with `img_as(float)` (skimage: divide by the
+maximum of the type) *before* `_subtract_background`. -/
+
+/-- `skimage.img_as_float` on an unsigned `bits`-bit value -/
+def promote (bits n : Nat) : Rat := (n : Rat) / ((2 ^ bits - 1 : Nat) : Rat)
+
+/-- what numpy computes for `p - b` on unsigned `bits`-bit arrays without promotion (wrap-around) -/
+def wrapSub (bits p b : Nat) : Nat := (p + 2 ^ bits - b) % 2 ^ bits
+
+/-- `_subtract_background` on promoted integer images, element-wise -/
+def diffPromoted (bits : Nat) (o : DiffOpt) (base probe : List Nat) : List Rat :=
+  List.zipWith (fun p b => o.val (promote bits p) (promote bits b)) probe base
+
+/-- the threshold after processing the extra baselines one after the other (the loop of `find_cleaning_filter`
+on already reduced, scalar signals) -/
+def accumulate (n : Nat) (signals : List (List Rat)) : List Rat :=
+  signals.foldl (fun thr s => List.zipWith (fun t x => if t ≤ x then x else t) thr s) (List.replicate n 0)
+
+end Darsia.Pipeline
